@@ -35,9 +35,9 @@ FIXTURE = 'mdib_two_mds.xml'
 
 def st_case():
     inv = MP.inventory(FIXTURE)
-    simple = MP.st_op(inv, multi=True, kw_hold=False, aborts=False)
+    simple = MP.st_op(inv, multi=True, kw_hold=False, aborts=False, ctx_delete=False)
     prog = st.lists(simple, min_size=3, max_size=14)
-    inflight = st.lists(MP.st_op(inv, descriptor_ops=True, multi=False, kw_hold=False, aborts=False), max_size=3)
+    inflight = st.lists(MP.st_op(inv, descriptor_ops=True, multi=False, kw_hold=False, aborts=False, ctx_delete=False), max_size=3)
     sched = st.lists(st.one_of(st.integers(0, 40), st.integers(0, 40), st.integers(0, 40), st.just('R')), min_size=1, max_size=30)
     ordered_with_noise = st.tuples(st.lists(st.booleans(), min_size=40, max_size=40), st.lists(st.tuples(st.integers(0, 40), st.integers(0, 40)), max_size=6)).map(
         lambda t: ('ordered', t[0], t[1]))
@@ -45,7 +45,10 @@ def st_case():
         'prog': prog, 'pre': inflight, 'post': inflight,
         'schedule': st.one_of(sched, ordered_with_noise),
         'idchange': st.sampled_from([None, None, 'seq', 'inst', 'both']),
-        'after_change': st.lists(simple, min_size=1, max_size=3)})
+        'after_change': st.lists(simple, min_size=1, max_size=3),
+        # the provider leaves the context states out of GetMdibResponse: the consumer asks for them separately, and
+        # `mid` is committed after GetMdib was answered and before GetContextStates is
+        'ctx_separate': st.booleans(), 'mid': inflight})
 
 
 def expand_schedule(schedule, m):
@@ -96,7 +99,10 @@ class Runner:
         self.flags = set()
         self.publish()
         # ---- initial load with commits in flight
-        state = {'pre': list(case['pre']), 'post': list(case['post'])}
+        state = {'pre': list(case['pre']), 'post': list(case['post']), 'mid': list(case.get('mid', ()))}
+        if case.get('ctx_separate'):
+            self.world.provider.contextstates_in_getmdib = False
+            self.flags.add('separate-GetContextStates')
 
         def is_get_mdib(entry):
             return entry.action is not None and entry.action.endswith('/GetMdib')
@@ -106,6 +112,10 @@ class Runner:
                 ops, state['pre'] = state['pre'], []
                 self.run_ops(ops)
                 self.flags.add('inflight-before-answer')
+            if entry.action is not None and entry.action.endswith('/GetContextStates') and state['mid'] and case.get('ctx_separate'):
+                ops, state['mid'] = state['mid'], []
+                if self.run_ops(ops):
+                    self.flags.add('inflight-between-GetMdib-and-GetContextStates')
 
         def post(entry):
             if is_get_mdib(entry) and state['post']:
@@ -310,7 +320,7 @@ def case_fn(ctx, case):
     finally:
         r.close()
     nontrivial = bool(r.flags & {'duplicate', 'reorder', 'inflight-before-answer', 'inflight-after-answer',
-                                 'reports-during-reload'}) or any(
+                                 'reports-during-reload', 'inflight-between-GetMdib-and-GetContextStates'}) or any(
         f.startswith('idchange') for f in r.flags)
     ctx.case(case, nontrivial, 'case', classes=tuple(sorted(r.flags)))
     return findings
@@ -320,12 +330,182 @@ def shard(ctx, n):
     R.hyp_campaign(ctx, 'case', st_case(), lambda c: case_fn(ctx, c), n, shrink_s=40 if ctx.tier == 'quick' else 200)
 
 
+# ------------------------------------------------------------------------------------ part: load under the scheduler
+def st_load_scenario():
+    inv = MP.inventory(FIXTURE)
+    op = MP.st_op(inv, descriptor_ops=True, multi=False, kw_hold=False, aborts=False, ctx_delete=False)
+    return st.fixed_dictionaries({
+        'mode': st.sampled_from(['init', 'reload']), 'ctx_separate': st.sampled_from([False, False, True]),
+        'pre': st.lists(op, max_size=1), 'post': st.lists(op, min_size=1, max_size=2)})
+
+
+def loadsched_run(scenario, choices, default='first'):
+    """The consumer loads its MDIB (init_mdib / reload_all, task `load`) while the notification thread (task `notify`)
+    delivers the reports of commits that happened while GetMdib was in flight (`pre`: before the provider computed the
+    answer, `post`: after it).  Yield points: acquire / release of ConsumerMdib.mdib_lock and of the lock of the report
+    buffer.  When both tasks are done every report has been delivered once, in order: the consumer must be a mirror.
+    -> (findings, info)"""
+    from sdc11073.mdib.consumermdib import ConsumerMdib
+
+    from vf import sched as S
+    from vf.props import c01
+    c01.park_role_workers()
+    L.reset_network()
+    W.quiet_logging()
+    inv = MP.inventory(FIXTURE)
+    world = W.World(W.fixture(FIXTURE))
+    findings = []
+    sched = S.Sched(choices, default=default)
+    try:
+        if scenario.get('ctx_separate'):
+            world.provider.contextstates_in_getmdib = False
+        interp = MP.Interp(world.mdib, inv, provider=world.provider)
+        consumer, _ = world.add_consumer(init_mdib=False)
+        netloc = world.consumers[0][2].netloc
+        cm = ConsumerMdib(consumer)
+        if scenario['mode'] == 'reload':
+            cm.init_mdib()
+        L.NET.interceptor = lambda e: ('hold',) if e.netloc == netloc and e.action and 'SubscriptionEnd' not in e.action else None
+        cm.mdib_lock = S.SchedLock(sched, 'consumer.mdib_lock')
+        cm._buffered_notifications_lock = S.SchedLock(sched, 'buffer_lock', reentrant=False)  # noqa: SLF001
+        gate = S.SchedLock(sched, 'reports-exist', yield_when_free=False)
+        state = {'pre': list(scenario['pre']), 'post': list(scenario['post']), 'applied': 0}
+
+        def run_ops(ops):
+            for op in ops:
+                try:
+                    if not interp.run(op)['skipped']:
+                        state['applied'] += 1
+                except Exception as ex:  # noqa: BLE001
+                    if not R.exc_in_library(ex):
+                        raise
+
+        def pre(entry):
+            if entry.action is not None and entry.action.endswith('/GetMdib') and state['pre']:
+                ops, state['pre'] = state['pre'], []
+                run_ops(ops)
+
+        def post(entry):
+            if entry.action is not None and entry.action.endswith('/GetMdib') and state['post']:
+                ops, state['post'] = state['post'], []
+                run_ops(ops)
+                gate.release()  # from here on the notification task delivers
+
+        def load():
+            gate.acquire()
+            try:
+                if scenario['mode'] == 'init':
+                    cm.init_mdib()
+                else:
+                    cm.reload_all()
+            finally:
+                if gate.owner is sched.current():
+                    gate.release()
+
+        def notify():
+            with gate:
+                pass
+            i = 0
+            while i < len(L.NET.held):  # (reports are only produced inside the two windows, before the gate opens)
+                entry, headers = L.NET.held[i]
+                i += 1
+                try:
+                    L.NET.replay(entry, headers)
+                except Exception as ex:  # noqa: BLE001
+                    if not R.exc_in_library(ex):
+                        raise
+                    findings.append((f'{P}/load-sched/delivery-raises/{R.exc_sig(ex)}', f'{type(ex).__name__}: {ex}'[:300]))
+        L.NET.pre_handle, L.NET.post_handle = pre, post
+        sched.spawn('load', load)
+        sched.spawn('notify', notify)
+        try:
+            sched.run()
+        finally:
+            L.NET.pre_handle = L.NET.post_handle = None
+            L.NET.interceptor = None
+        for t in sched.tasks:
+            if t.exc is not None:
+                if not R.exc_in_library(t.exc):
+                    raise t.exc
+                findings.append((f'{P}/load-sched/{t.name}-raises/{R.exc_sig(t.exc)}', f'{type(t.exc).__name__}: {t.exc}'[:300]))
+        if not findings:
+            d = C.diff_mdib(C.canon_mdib(world.mdib), C.canon_mdib(cm))
+            if d:
+                first = str(d[0][0])
+                findings.append((f'{P}/load-sched/not-a-mirror/{scenario["mode"]}/{first.split("[")[0]}',
+                                 f'all {len(L.NET.held)} reports were delivered once and in order while the consumer loaded; '
+                                 f'provider vs consumer: {[list(map(str, x)) for x in d[:3]]}; schedule {sched.trace}'[:900]))
+            for problem in C.audit_mdib(cm, 'consumer'):
+                findings.append((f'{P}/load-sched/lookup/{problem.split("[")[0].split(":")[0]}', problem))
+        info = {'taken': list(sched.taken), 'branching': list(sched.branching), 'reports': len(L.NET.held),
+                'applied': state['applied'],
+                'switches': sum(1 for a, b in zip(sched.trace, sched.trace[1:]) if a[0] != b[0])}
+    finally:
+        world.close()
+    return findings, info
+
+
+def loadsched_case(ctx, case):
+    findings, info = loadsched_run(case['scenario'], case['choices'], default='continue')
+    key = {'scenario': case['scenario'], 'choices': info['taken']}
+    ctx.case(key, info['reports'] > 0 and info['switches'] >= 2, 'load-sched',
+             classes=(case['scenario']['mode'],) + (('separate-GetContextStates',) if case['scenario']['ctx_separate'] else ()))
+    return findings
+
+
+def shard_loadsched(ctx, n):
+    strat = st.tuples(st_load_scenario(), st.lists(st.integers(0, 1), max_size=40)).map(
+        lambda t: {'scenario': t[0], 'choices': t[1]})
+    R.hyp_campaign(ctx, 'load-sched', strat, lambda c: loadsched_case(ctx, c), n, shrink_s=30 if ctx.tier == 'quick' else 150)
+
+
+def shard_loadsched_dfs(ctx, seed, n, max_schedules):
+    """All schedules (depth first) of n generated scenarios."""
+    from hypothesis import HealthCheck, Phase, given, settings
+    from hypothesis import seed as hseed
+
+    from vf import sched as S
+    got = []
+
+    @hseed(seed)
+    @settings(max_examples=n, database=None, deadline=None, phases=[Phase.generate], suppress_health_check=list(HealthCheck))
+    @given(st_load_scenario())
+    def collect(sc):
+        got.append(sc)
+    collect()
+    for scenario in got[:n]:
+        choices, count, complete = [], 0, False
+        while choices is not None and count < max_schedules and not ctx.out_of_budget():
+            findings, info = loadsched_run(scenario, choices, default='first')
+            count += 1
+            case = {'scenario': scenario, 'choices': info['taken']}
+            ctx.case(case, info['reports'] > 0 and info['switches'] >= 2, 'load-sched-dfs', classes=(scenario['mode'],))
+            for sig, detail in findings:
+                ctx.finding(sig, detail, case, 'load-sched-dfs')
+            choices = S.next_dfs(info['taken'], info['branching'])
+            complete = choices is None
+        ctx.count('load-sched-dfs/scenarios-complete' if complete else 'load-sched-dfs/scenarios-truncated')
+        ctx.count('load-sched-dfs/schedules', count)
+
+
 def run(ctx):
-    R.run_shards(ctx, __name__, 'shard', [(6 if ctx.tier == "quick" else 280,)] * R.NPROC)
+    quick = ctx.tier == 'quick'
+    jobs = [('shard', 8 if quick else 400)] * 10
+    jobs += [('shard_loadsched', 14 if quick else 500)] * 3
+    jobs += [('shard_loadsched_dfs', ctx.sub_seed('dfs', i) % 2**32, 1 if quick else 6, 80 if quick else 5000) for i in range(3)]
+    R.run_shards(ctx, __name__, 'shard_any', jobs)
+
+
+def shard_any(ctx, name, *args):
+    globals()[name](ctx, *args)
 
 
 def replay(part, case):
     ctx = R.Ctx(P, 'quick', 0, {})
+    if part == 'load-sched':
+        return loadsched_run(case['scenario'], case['choices'], default='continue')[0]
+    if part == 'load-sched-dfs':
+        return loadsched_run(case['scenario'], case['choices'], default='first')[0]
     if isinstance(case.get('schedule'), list) and case['schedule'] and case['schedule'][0] == 'ordered':
         case['schedule'] = tuple(case['schedule'])
     return case_fn(ctx, case)
